@@ -200,7 +200,7 @@ class ValuesProfile(FieldProfile):
         "outcome); non-trivial = at least 2 steps and at least one fault/history/aliasing oracle evaluation"
     )
 
-    def draw_config(self, rng):
+    def _draw_config(self, rng):
         return {
             "ndim": rng.choice([1, 2, 2, 3, 3, 4]),
             "family": rng.choice(["dyadic", "dyadic", "nm"]),
@@ -286,7 +286,7 @@ class NormProfile(FieldProfile):
         "new specification)"
     )
 
-    def draw_config(self, rng):
+    def _draw_config(self, rng):
         return {
             "ndim": rng.choice([1, 2, 3, 3]),
             "family": rng.choice(["dyadic", "nm"]),
@@ -337,6 +337,8 @@ class NormProfile(FieldProfile):
         r = rng.random()
         if r < 0.35:
             return {"op": "F.setnorm", "on": s, "spec": self.norm_spec(rng, h.box.v)}
+        if r < 0.4 and len(fields) > 1:
+            return {"op": "F.update", "on": s, "spec": {"t": "arrayof", "src": rng.choice([x for x in fields if x != s])}, "via": rng.choice(["array", "update"])}
         if r < 0.6:
             t = rng.choice(["array", "array", "fn", "const"])
             if t == "const":
@@ -355,7 +357,7 @@ class AlgebraProfile(FieldProfile):
     prop = "C03"
     name = "algebra"
     predict = ("mesh", "array")
-    required_probes = ("same_operand_twice", "shared_mesh", "commute_scalar_vector", "equal_but_distinct_meshes")
+    required_probes = ("same_operand_twice", "shared_mesh", "commute_scalar_vector", "equal_but_distinct_meshes", "evaluate_update_evaluate", "inplace_ufunc")
     rule = (
         "one case = one seeded program (3-30 operator applications, results fed back as operands: DAGs) over unary -/+/abs, "
         "binary + - * / ** with field / number / constant vector / per-cell array on either side, dot, cross, angle, <<, complex "
@@ -364,7 +366,7 @@ class AlgebraProfile(FieldProfile):
         "non-trivial = at least 2 steps and at least one aliasing oracle evaluation (whole-heap refinement: no operand changed)"
     )
 
-    def draw_config(self, rng):
+    def _draw_config(self, rng):
         return {
             "ndim": rng.choice([1, 2, 3, 3, 4]),
             "family": rng.choice(["dyadic", "nm"]),
@@ -414,8 +416,24 @@ class AlgebraProfile(FieldProfile):
             if o["value"].get("kind") == "idx":
                 o["value"] = {"kind": "rint", "seed": rng.randrange(2**31), "lo": -6, "hi": 7, "step": rng.choice([1.0, 0.5, 0.25])}
             return o
+        queue = st.extra.setdefault("queue", [])
+        if queue:
+            o = queue.pop(0)
+            if "out" in o:
+                o["out"] = out
+            return o
         a = rng.choice(fields)
         ha = st.h[a]
+        if rng.random() < 0.04 and ha.fm.array.dtype.kind == "f":
+            # evaluate - update the operand in place - evaluate again: the second result
+            # must be computed from the current values (nothing remembered from the first)
+            same = [s for s in fields if st.h[s].box.v.key()[:2] == ha.box.v.key()[:2] and st.h[s].fm.nvdim == ha.fm.nvdim]
+            b = rng.choice(same)
+            f = rng.choice(["angle", "angle", "dot"])
+            upd = {"op": "A.inplace", "on": a, "f": rng.choice(["add", "multiply", "subtract"]), "x": rng.choice([2, -1, 0.5, 3])} if rng.random() < 0.5 else {"op": "F.poke", "on": a, "i": rng.randrange(10**6), "v": [rng.choice([0.0, 1.0, -3.0, 2.5]) for _ in range(ha.fm.nvdim)], "whole_cell": True}
+            queue += [upd, {"op": "A.vecop", "a": a, "b": b, "f": f, "out": None, "operator": False}, {"op": "A.vecop", "a": b, "b": a, "f": f, "out": None, "operator": False}]
+            st.stats.probe("evaluate_update_evaluate")
+            return {"op": "A.vecop", "a": a, "b": b, "f": f, "out": out, "operator": False}
         if rng.random() < cfg["p_reject"] and len(fields) >= 2:
             b = rng.choice([s for s in fields if s != a])
             return {"op": "A.reject", "a": a, "b": b, "f": rng.choice(["add", "sub", "mul", "truediv", "dot", "cross", "angle", "lshift"]), "fault": "rejected_args"}
@@ -450,8 +468,12 @@ class AlgebraProfile(FieldProfile):
         if r < 0.86:
             same = [s for s in fields if st.h[s].box.v.key()[:2] == ha.box.v.key()[:2]]
             return {"op": "A.commute", "a": a, "b": rng.choice(same), "f": rng.choice(["mul", "add"])}
-        if r < 0.93:
+        if r < 0.91:
             return {"op": "A.cplx", "on": a, "f": rng.choice(["real", "imag", "conjugate", "phase", "abs"]), "out": out}
+        if r < 0.94:
+            if rng.random() < 0.5:
+                return {"op": "A.inplace", "on": a, "f": rng.choice(["add", "multiply", "subtract"]), "x": rng.choice([2, -1, 0.5, 3])}
+            return {"op": "F.poke", "on": a, "i": rng.randrange(10**6), "v": [rng.choice([0.0, 1.0, -3.0, 2.5]) for _ in range(ha.fm.nvdim)], "whole_cell": True}
         if rng.random() < 0.5:
             return {"op": "A.ufunc", "f": rng.choice(["sin", "exp", "square", "negative", "absolute"]), "args": [a], "out": out}
         same = [s for s in fields if st.h[s].box.v.key()[:2] == ha.box.v.key()[:2] and st.h[s].fm.nvdim == ha.fm.nvdim]
@@ -478,7 +500,7 @@ class ValidityProfile(FieldProfile):
         "at least 2 steps and at least one aliasing oracle evaluation"
     )
 
-    def draw_config(self, rng):
+    def _draw_config(self, rng):
         return {
             "ndim": rng.choice([1, 2, 3, 3, 3, 4]),
             "family": rng.choice(["dyadic", "nm"]),
@@ -536,6 +558,9 @@ class ValidityProfile(FieldProfile):
             return {"op": "A.cplx", "on": a, "f": rng.choice(["real", "imag", "conjugate", "phase", "abs"]), "out": out}
         if r < 0.4:
             return {"op": "D.diff", "on": a, "d": rng.randrange(nd), "order": rng.choice([1, 2]), "r2v": rng.random() < 0.7, "out": out}
+        if r < 0.44:
+            # a number on the left: 0 + f, 1 * f, ... are results like any other
+            return {"op": "A.binary", "a": a, "b": {"num": rng.choice([0, 0, 1, 2, -1])}, "f": rng.choice(["add", "add", "mul", "sub"]), "reflected": rng.random() < 0.7, "out": out}
         if r < 0.55:
             b = rng.choice(same)
             if st.h[b].fm.nvdim not in (1, ha.fm.nvdim) and ha.fm.nvdim != 1:
@@ -564,6 +589,15 @@ class ValidityProfile(FieldProfile):
             return {"op": "D.sel", "on": a, "how": how, "out": out}
         if nd >= 2:
             ax1, ax2 = rng.sample(list(mm.region.dims), 2)
+            r2 = rng.random()
+            if r2 < 0.3:
+                # in-place rotation (validity turns with the data) - or its refusal, which
+                # must leave the mask where it was
+                from .ops_geom import field_rot_refused
+
+                if field_rot_refused(ha.fm, mm, ax1, ax2):
+                    return {"op": "reject", "on": a, "method": "rotate90", "args": [ax1, ax2], "kwargs": {"k": rng.choice([1, 2, 3])}, "why": "vector field lacks mapping", "inplace": True, "need": "field_unmapped", "ndim": nd, "fault": "rejected_args"}
+                return {"op": "rotate90", "on": a, "ax1": ax1, "ax2": ax2, "k": rng.choice([1, 2, 3, -1]), "ref": None, "inplace": True, "out": out}
             return {"op": "D.rot", "on": a, "ax1": ax1, "ax2": ax2, "k": rng.choice([1, 2, 3, -1]), "out": out}
         return {"op": "A.unary", "on": a, "f": "neg", "out": out}
 
